@@ -983,6 +983,36 @@ theorem cp2k_fixed_replace_keeps_settings :
     updateInput tplKY [updReplace] [] = .ok "&A\n  &K Y\n    W 9\n  &END K\n&END A\n".toList := by
   decide
 
+/-- `{"MOTION->PRINT->RESTART": {"data": {"BACKUP_COPIES": 0}}}` — the value travels as `str(0) = "0"` -/
+def updZero : Upd :=
+  { target := "MOTION->PRINT->RESTART".toList, settings := none, replace := false,
+    data := [("BACKUP_COPIES".toList, some "0".toList)], isList := false }
+
+/-- `{"MOTION->PRINT->RESTART": {"data": {"FILENAME": ""}}}` -/
+def updEmpty : Upd :=
+  { target := "MOTION->PRINT->RESTART".toList, settings := none, replace := false,
+    data := [("FILENAME".toList, some [])], isList := false }
+
+set_option maxRecDepth 4000 in
+/-- a created section (with a created parent) keeps a zero value: `some "0"` is not `none` (`is None`, not
+    truthiness) -/
+theorem cp2k_created_section_keeps_zero :
+    updateInput tplMD [updZero] [] =
+      .ok "&MOTION\n  &MD\n    STEPS 10\n  &END MD\n  &PRINT\n    &RESTART\n      BACKUP_COPIES 0\n    &END RESTART\n  &END PRINT\n&END MOTION\n".toList := by
+  decide
+
+set_option maxRecDepth 4000 in
+/-- … and an empty-string value: the line is `KEY ` (key, blank, empty value), not the bare key -/
+theorem cp2k_created_section_keeps_empty :
+    updateInput tplMD [updEmpty] [] =
+      .ok "&MOTION\n  &MD\n    STEPS 10\n  &END MD\n  &PRINT\n    &RESTART\n      FILENAME \n    &END RESTART\n  &END PRINT\n&END MOTION\n".toList := by
+  decide
+
+/-- instance of the conclusion of `cp2k_edit_exact_absent`: the created node's data are the formatted entries -/
+example : updZero.data.map fmtEntry = ["BACKUP_COPIES 0".toList] ∧ updEmpty.data.map fmtEntry = ["FILENAME ".toList] ∧
+    fmtEntry ("K".toList, some "False".toList) = "K False".toList ∧ fmtEntry ("K".toList, some "0.0".toList) = "K 0.0".toList ∧
+    fmtEntry ("K".toList, none) = "K".toList := by decide
+
 /-! #### historical record: the code BEFORE fix 6e4f7f3 (`…AsIs` copies of the functions the fix touched)
 
 `mergeOldAsIs` printed `f"{key} {data[key]}"` also for `None`; `update_cp2k_input` defaulted "settings" to `[]`;
